@@ -8,6 +8,7 @@ Each check runs the sweep with its own judgement switched on:
 import array
 import itertools
 import math
+import pickle
 
 from . import common, refalign
 
@@ -298,10 +299,14 @@ def run_shard(d):
                         res["real_finders"] += 1
                         _c07(ad, cls, kw, cfg, reads, res, aw, rw)
                         continue
-                    passes = [("mock", True)] if which == "C02" else ([("own", False), ("mock", True)] if real else [("own", False)])
+                    passes = [("own", False)] if which == "C02" else ([("own", False), ("mock", True)] if real else [("own", False)])
                     for label, mock in passes:
                         if mock:
+                            # second pass: a pickle round trip of the adapter (what a worker process gets under the
+                            # spawn start method) with the prefilter switched off
+                            ad = pickle.loads(pickle.dumps(ad))
                             ad.kmer_finder = MockKmerFinder()
+                            label = "mock+pickled"
                         match_to = ad.match_to
                         k = 0
                         for r in reads:
